@@ -23,3 +23,44 @@ func VerifH_C11_ParseReadable() {
 	}
 	verifrt.Assert(sc.Err() == nil, "parsed name is a valid wire name")
 }
+
+func refEscape(dst []byte, b byte) []byte {
+	switch {
+	case ('a' <= b && b <= 'z') || ('A' <= b && b <= 'Z') || ('0' <= b && b <= '9') || b == '-':
+		return append(dst, b)
+	case b == '.':
+		return append(dst, '\\', '.')
+	case b == '\\':
+		return append(dst, '\\', '\\')
+	}
+	return append(dst, '\\', '0'+b/100, '0'+b/10%10, '0'+b%10)
+}
+
+// VerifH_C11_ToReadable: the text form handed to regexp entries is the documented escaping:
+// letters/digits/hyphen verbatim, '.' and '\' backslash-escaped, any other octet as \DDD, labels
+// joined by '.', no trailing dot, root = ".".
+func VerifH_C11_ToReadable() {
+	verifrt.Unwind(40)
+	shape := vShapes[verifrt.Choose("shape", 5)]
+	n := vName("n", shape)
+	got, err := ToReadable(n)
+	verifrt.Assert(err == nil, "valid wire name converts")
+	var want []byte
+	if len(shape) == 0 {
+		want = []byte{'.'}
+	}
+	off := 0
+	for i, l := range shape {
+		if i > 0 {
+			want = append(want, '.')
+		}
+		off++
+		for j := 0; j < l; j++ {
+			want = refEscape(want, n[off])
+			off++
+		}
+	}
+	verifrt.Reach("converted")
+	verifrt.Assert(len(got) == len(want), "text length as documented (\\DDD is 4 octets)")
+	verifrt.Assert(verifrt.EqBytes(got, want), "text form equals the documented escaping")
+}
